@@ -29,7 +29,7 @@ CURVES = ["p192", "p224", "p256", "p384", "p521", "ed25519", "ed448", "curve2551
 WS = CURVES[:5]
 OP_KINDS = ["hash_copy", "hash_copy", "cipher", "cipher", "ec", "ec", "ec", "ecdsa", "ecdsa", "eddsa", "eddsa", "rsa", "modexp", "kdf", "shamir",
             "gc", "ecdh", "import_key", "cmac_copy", "hmac_copy", "xof", "point_ops", "generate", "dsa", "primality", "bcrypt", "export_import",
-            "poly1305", "pkcs1_v15", "hash_all", "hash_all", "mac_verify", "big_gcm", "strxor", "pair_big", "pair_big"]
+            "poly1305", "pkcs1_v15", "hash_all", "hash_all", "mac_verify", "big_gcm", "strxor", "pair_big", "pair_big", "cipher_pair", "cipher_pair"]
 
 
 def dg(*xs):
@@ -107,9 +107,10 @@ class Machine(object):
                 curve = curve_focus or rng.choice(CURVES)
                 ops.append([k, s, curve, rng.randrange(64)])
             programs.append(ops)
-        if rng.random() < 0.12:
-            # several threads make the first use of ONE private key object (its public point is computed lazily)
-            sk = [rng.randrange(1 << 30), rng.choice(CURVES)]
+        shared_focus = rng.random() < 0.14
+        if shared_focus:
+            # several threads use ONE private key object (and read one point object) at the same time, for the first time
+            sk = [rng.randrange(1 << 30), rng.choice(CURVES + ["ed25519", "rsa", "rsa"])]
             for ops in programs:
                 ops.insert(rng.randrange(len(ops) + 1), ["shared_key", sk[0], sk[1], rng.randrange(64)])
         sched = {"line_k": rng.choice([3, 10, 40, 150, 600, 3000]), "c_k": rng.choice([0, 50, 300, 2000, 20000, 200000]),
@@ -119,6 +120,11 @@ class Machine(object):
             # races on data shared through the curve object (generator point, context) need dense pre-emption inside C
             sched["c_k"] = rng.choice([30, 100, 300, 300, 1000])
             sched["max_switches"] = rng.choice([100, 400, 400, 1000])
+            sched["p_switch"] = rng.choice([0.6, 1.0])
+        if shared_focus and rng.random() < 0.7:
+            # readers of one shared object: the interesting windows are inside single native calls
+            sched["c_k"] = rng.choice([3, 10, 30, 100, 300])
+            sched["max_switches"] = rng.choice([200, 400, 1000])
             sched["p_switch"] = rng.choice([0.6, 1.0])
         if any(op[0] == "huge_copy" for ops in programs for op in ops):
             sched["c_k"] = rng.choice([0, 200000])       # eight million compression calls: no dense pre-emption inside them
@@ -203,11 +209,19 @@ class Machine(object):
             for op in ops:
                 if op[0] == "shared_key" and (op[1], op[2]) not in self.shared:
                     seed, c = op[1], op[2]
+                    if c == "rsa":
+                        from Crypto.PublicKey import RSA
+                        self.shared[(seed, c)] = RSA.construct(self.rsa_comps, consistency_check=False)
+                        continue
                     if c in WS:
                         k = ECC.construct(curve=c, d=1 + seed)
                     else:
                         k = ECC.construct(curve=c, seed=data(seed, {"ed25519": 32, "ed448": 57, "curve25519": 32, "curve448": 56}[c]))
                     self.shared[(seed, c)] = k
+                    if c in WS + ["ed25519", "ed448"]:
+                        # fresh projective points (never converted to affine yet) that all threads will read
+                        G = k.pointQ * 1
+                        self.shared[(seed, c, "points")] = [G * (3 + 7 * j + seed % 1000) for j in range(8)]
 
     def _say(self, a):
         a = str(a)
@@ -610,8 +624,41 @@ class Machine(object):
             # read-only use of a private key that other threads are using for the first time as well
             from Crypto.PublicKey import ECC
             k = self.shared[(seed, curve)]
+            if curve == "rsa":
+                # independent signer / cipher objects in several threads over ONE key object
+                from Crypto.Signature import pkcs1_15, pss
+                from Crypto.Cipher import PKCS1_OAEP
+                from Crypto.Hash import SHA256
+                out = []
+                for j in range(2 + salt % 3):
+                    m = bytes(msg) + bytes([j])
+                    sig = pkcs1_15.new(k).sign(SHA256.new(m))
+                    pkcs1_15.new(k.publickey()).verify(SHA256.new(m), sig)
+                    ct = PKCS1_OAEP.new(k.publickey(), randfunc=entropy).encrypt(m[:40])
+                    if PKCS1_OAEP.new(k).decrypt(ct) != m[:40]:
+                        raise Mutated("OAEP decryption with a shared RSA key gave a wrong plaintext")
+                    out.append(sig)
+                return dg(*out)
+            pts = self.shared.get((seed, curve, "points"))
+            if pts:
+                # first thing in the operation (while the switch budget lasts): several readers of the same fresh points
+                order = list(range(8)) if salt & 1 else list(range(7, -1, -1))
+                got = [(int(pts[j].x), int(pts[j].y)) for j in order]
+                again = [(int(pts[j].x), int(pts[j].y)) for j in order]
+                if got != again:
+                    raise Mutated("reading the coordinates of shared points twice gave different values on %s" % curve)
+                out0 = dg(*[got[order.index(j)] for j in range(8)])
+            else:
+                out0 = None
             pub = k.public_key()
-            out = [pub.export_key(format="DER")]
+            out = [out0, pub.export_key(format="DER")]
+            # several readers of one (projective) point object
+            xs = set()
+            for j in range(3 + salt % 4):
+                xs.add(int(k.pointQ.x))
+                xs.add(int(k.pointQ.copy().x))
+            if len(xs) != 1:
+                raise Mutated("reading the coordinates of a shared point gave different values on %s" % curve)
             if curve in WS or curve in ("curve25519", "curve448"):
                 from Crypto.Protocol.DH import key_agreement
                 if curve in WS:
@@ -657,6 +704,52 @@ class Machine(object):
             if (h.digest(), c.digest(), c2.digest()) != (r1.digest(), r2.digest(), r2.digest()):
                 raise Mutated("a copy() taken after half a gigabyte does not continue like the original (%s)" % fam)
             return dg(h.digest(), c.digest())
+        if kind == "cipher_pair":
+            # two live cipher objects under the SAME key that differ only in a configuration flag or the nonce, used in turn
+            from Crypto.Cipher import AES
+            key = data(seed, [16, 24, 32][salt % 3])
+            mode = ["GCM", "GCM", "CTR", "CBC", "EAX", "OCB", "CCM", "ECB"][(salt >> 2) % 8]
+            flags = [{}, {"use_aesni": False}, {"use_clmul": False} if mode == "GCM" else {"use_aesni": False}, {}]
+            fa, fb = flags[salt % 4], flags[(salt >> 4) % 4]
+
+            def mk(fl, nonce_seed):
+                kw = dict(fl)
+                if mode in ("GCM", "EAX", "OCB", "CCM"):
+                    kw["nonce"] = data(nonce_seed, 12)
+                elif mode == "CTR":
+                    kw["nonce"] = data(nonce_seed, 8)
+                elif mode == "CBC":
+                    kw["iv"] = data(nonce_seed, 16)
+                return AES.new(key, getattr(AES, "MODE_" + mode), **kw)
+            na, nb = seed + 1, (seed + 1 if salt & 32 else seed + 2)
+            pa, pb = data(seed + 3, 16 * (2 + salt % 20)), data(seed + 4, 16 * (1 + salt % 13))
+            a, b = mk(fa, na), mk(fb, nb)
+            aead = mode in ("GCM", "EAX", "OCB", "CCM")
+            if aead:
+                a.update(b"hdr-a")
+                b.update(b"hdr-b")
+            if mode == "CCM":
+                ra, rb = a.encrypt_and_digest(pa), b.encrypt_and_digest(pb)
+            else:
+                h = len(pa) // 32 * 16
+                ca = a.encrypt(pa[:h])
+                cb = b.encrypt(pb)
+                ca += a.encrypt(pa[h:])
+                if mode == "OCB":
+                    ca += a.encrypt()
+                    cb += b.encrypt()
+                ra = (ca, a.digest()) if aead else (ca, b"")
+                rb = (cb, b.digest()) if aead else (cb, b"")
+            ea, eb = mk({}, na), mk({}, nb)
+            if aead:
+                ea.update(b"hdr-a")
+                eb.update(b"hdr-b")
+                xa, xb = ea.encrypt_and_digest(pa), eb.encrypt_and_digest(pb)
+            else:
+                xa, xb = (ea.encrypt(pa), b""), (eb.encrypt(pb), b"")
+            if (ra, rb) != (xa, xb):
+                raise Mutated("two live AES-%s objects under one key disagree with each object used alone" % mode)
+            return dg(ra, rb)
         if kind == "pair_big":
             # two live objects of one family, several internal blocks / tree chunks each, updates interleaved in this thread
             fams = ["KangarooTwelve", "KangarooTwelve", "TurboSHAKE128", "SHAKE256", "SHA256", "SHA512", "SHA3_256", "BLAKE2b", "BLAKE2s", "cSHAKE128",
